@@ -71,7 +71,7 @@ def capture(S, out_module, filename):
                     store["file"] = f.read()
 
 
-def h_output(T, L, P, thorough, only_axes=None):
+def h_output(T, L, P, thorough, only_axes=None, period_times=None):
     def fn(S):
         data = load.modules["verif.data"]
         metric = load.modules["verif.metric"]
@@ -80,6 +80,8 @@ def h_output(T, L, P, thorough, only_axes=None):
         MI = common.input_class()
         S.allow_realize(True)
         times = [1704067200 + 86400 * i for i in range(T)]          # 2024-01-01, 2024-01-02
+        if period_times is not None:
+            times = list(period_times)
         lts = [0.0, 30.0][:L]
         ids, lats, lons, elevs = [11, 4], [60.5, 59.25], [10.0, 11.5], [100.0, 250.0]
         shape = (T, L, P)
@@ -141,6 +143,14 @@ def h_output(T, L, P, thorough, only_axes=None):
             if axname in ("location", "lat", "elev"):
                 # rows follow the dataset's location order: ascending id
                 slices = [("loc", p) for p in sorted(range(P), key=lambda p: ids[p])]
+            elif axname in ("month", "year", "week"):
+                # one row per period; a period may hold several init times
+                import datetime
+                fmt_ = ax.get(axname).fmt
+                groups = {}
+                for i_, t_ in enumerate(times):
+                    groups.setdefault(datetime.datetime.fromtimestamp(t_, datetime.timezone.utc).strftime(fmt_), []).append(i_)
+                slices = [("times", (lab, idxs)) for lab, idxs in sorted(groups.items(), key=lambda kv: kv[1][0])]
             elif axname == "time":
                 slices = [("time", t) for t in range(T)]
             elif axname == "leadtime":
@@ -164,7 +174,7 @@ def h_output(T, L, P, thorough, only_axes=None):
                 d = [S.abs(o[c] - fc[c]) for c in cells]
                 return S.div(S.count(x < k for x in d) * 100.0, len(d))     # within: default bin type 'below'
             sel = [c for c in cells if kind == "all" or (kind == "loc" and c[2] == k) or (kind == "time" and c[0] == k)
-                   or (kind == "lead" and c[1] == k)]
+                   or (kind == "lead" and c[1] == k) or (kind == "times" and c[0] in k[1])]
             if avg_thresholds is not None:
                 d = [S.abs(o[c] - fc[c]) for c in sel]
                 per = [S.div(S.count(x < t for x in d) * 100.0, len(d)) for t in avg_thresholds]
@@ -211,7 +221,7 @@ def h_output(T, L, P, thorough, only_axes=None):
         header = [w.strip() for w in lines[0].split(sep) if w.strip() != ""]
         labels = legend if legend is not None else ["A.txt", "B.txt"]
         desc_names = {"location": ["id", "lat", "lon", "elev"], "lat": ["id", "lat", "lon", "elev"], "elev": ["id", "lat", "lon", "elev"],
-                      "time": ["Time"], "year": ["Year"], "leadtime": ["Leadtime"], "no": ["No"], "threshold": ["Threshold"],
+                      "time": ["Time"], "year": ["Year"], "month": ["Month"], "week": ["Week"], "leadtime": ["Leadtime"], "no": ["No"], "threshold": ["Threshold"],
                       "obs": ["Observed"], "fcst": ["Forecasted"]}[axname]
         S.prove("header=descriptors+one-column-per-input", header == desc_names + labels, detail="%s/%s" % (fmt, axname))
         S.prove("one-line-per-slice", len(lines) == 1 + len(slices), detail="%s/%s" % (fmt, axname))
@@ -240,6 +250,8 @@ def h_output(T, L, P, thorough, only_axes=None):
                 S.prove("row-identifies-its-date", fields[0] == stamp, detail=fmt)
             elif kind == "lead":
                 S.prove("row-identifies-its-leadtime", float(fields[0]) == lts[k], detail=fmt)
+            elif kind == "times":
+                S.prove("row-identifies-its-period", fields[0] == k[0], detail="%s/%s: %r" % (fmt, axname, fields[0]))
             elif kind == "bin":
                 S.prove("row-identifies-its-interval-by-the-lower-edge", S.close(float(fields[0]), k[0], tol=0.51 * 10 ** (1 - 6)), detail=fmt)
             elif kind == "thr":
@@ -251,5 +263,8 @@ def harnesses(tier):
     thorough = tier == "thorough"
     return [Harness("text_csv", h_output(2, 2 if thorough else 1, 2, thorough), "Standard._get_x_y + text()/csv() on a real dataset",
                     query_timeout_ms=20000),
+            Harness("text_csv.periods", h_output(3, 1, 1, thorough, only_axes=("month", "week", "year"),
+                                                 period_times=(1704067200, 1704067200 + 86400, 1704067200 + 40 * 86400)),
+                    "-x month / week / year with two init times in the first period and one in the second", query_timeout_ms=20000),
             Harness("text_csv.bins", h_output(2, 1, 2 if thorough else 1, thorough, only_axes=("obs", "fcst")),
                     "-x obs / -x fcst: one row per interval, each with its own score", query_timeout_ms=20000)]
